@@ -198,9 +198,25 @@ def gen_cases(tier, seed):
     step_ = 1 if tier == 'thorough' else 6
     for k, d in enumerate(small[::step_]):
         cases.append({'id': f'small{k}', 'stream': 'small', 'feature': (k % 5 == 0), 'def': d})
+    # every short event name over {a, B, 2, _}: the snake_case rule (validation.rs) and the derived names
+    import itertools
+    kk = 0
+    for n in range(1, 5):
+        for t in itertools.product('aB2_', repeat=n):
+            w = ''.join(t)
+            if w[0].isdigit() or set(w) == {'_'}:
+                continue
+            cases.append({'id': f'evname{kk}', 'stream': 'evname', 'feature': False, 'rule': 'R7-event-not-snake',
+                          'def': [('name', 'M'), ('dynamic', True), ('initial', 'A'), ('states', [('leaf', 'A', None)]),
+                                  ('events', [(w, [('transition', [('from', ['A'], False), ('to', 'A')])])], True)]})
+            kk += 1
     for k in range(cfg['rand']):
         d = D.wf_random(rng)
         cases.append({'id': f'rand{k}', 'stream': 'rand', 'feature': rng.random() < 0.3, 'def': d})
+        if k % 10 == 3:
+            # deeper nesting, longer hook lists, more events than the default shape
+            dd_ = D.wf_random(rng, D.Shape(max_depth=5, max_hooks=4, max_leaves=10, max_events=5))
+            cases.append({'id': f'deep{k}', 'stream': 'deep', 'feature': rng.random() < 0.3, 'def': dd_})
         if k % 5 == 2:
             cd = D.collide_variant(d, rng)
             if cd is not None:
